@@ -422,6 +422,14 @@ inline LD windingNumber(const MeshData& m, const V3& x) {
     return tot / (4 * 3.14159265358979323846264338327950288L);
 }
 
+// which feature of triangle (a,b,c) the point q (on the triangle) lies on
+inline const char* triFeature(const V3& q, const V3& a, const V3& b, const V3& c) {
+    V3 n = cross(b - a, c - a); LD inv = 1 / dot(n, n);
+    LD v = dot(cross(q - a, c - a), n) * inv, w = dot(cross(b - a, q - a), n) * inv, u = 1 - v - w;
+    int z = (std::fabs(u) < 1e-9L) + (std::fabs(v) < 1e-9L) + (std::fabs(w) < 1e-9L);
+    return z == 0 ? "nearest-in-face" : (z == 1 ? "nearest-on-edge" : "nearest-on-vertex");
+}
+
 inline double minSinAngle(const MeshData& m) {
     double mn = 1;
     for (int i = 0; i < m.nf(); ++i) {
